@@ -511,10 +511,14 @@ bool Interp::doUnary(const Step& s)
         return fail("exception", "build(" + op + ") threw " + er.getName());
     }
     if (!uop) { R.labels.add("unsupported." + op); return true; }
-    dd_edge* e = new dd_edge(W.F[fc]);
+    // optional 6th token "inplace": apply(OP, x, x) on a copy of the operand edge
+    const bool inplace = s.size() > 5 && s[5] == "inplace" && fa == fc;
+    dd_edge* e = inplace ? new dd_edge(*W.slots[size_t(src)].e) : new dd_edge(W.F[fc]);
+    if (inplace) R.labels.add("result_aliases_operand");
     dd_edge before(*W.slots[size_t(src)].e);
     try {
-        uop->compute(*W.slots[size_t(src)].e, *e);
+        if (inplace) uop->compute(*e, *e);
+        else uop->compute(*W.slots[size_t(src)].e, *e);
     } catch (MEDDLY::error& er) {
         delete e;
         return fail("exception", op + " threw " + er.getName());
@@ -558,11 +562,19 @@ bool Interp::doBinary(const Step& s)
         W.F[fa]->getVariableOrder(oa.data()); W.F[fb]->getVariableOrder(ob.data()); W.F[fc]->getVariableOrder(oc.data());
         if (oa != ob || oa != oc) { skip("bin-order"); return true; }
     }
-    dd_edge* e = new dd_edge(W.F[fc]);
+    // optional 7th token: the result edge is (a copy of) an operand edge -- "ia": apply(OP, x, b, x),
+    // "ib": apply(OP, a, x, x), "iab": apply(OP, x, x, x); the slots' own edges stay untouched
+    const std::string alias = s.size() > 6 ? s[6] : "";
+    dd_edge* e = nullptr;
+    const dd_edge *pa = W.slots[size_t(a)].e, *pb = W.slots[size_t(b)].e;
+    if (alias == "ia" && fa == fc) { e = new dd_edge(*W.slots[size_t(a)].e); pa = e; R.labels.add("result_aliases_operand"); }
+    else if (alias == "ib" && fb == fc) { e = new dd_edge(*W.slots[size_t(b)].e); pb = e; R.labels.add("result_aliases_operand"); }
+    else if (alias == "iab" && fa == fc && a == b) { e = new dd_edge(*W.slots[size_t(a)].e); pa = pb = e; R.labels.add("result_aliases_operand"); }
+    else e = new dd_edge(W.F[fc]);
     dd_edge beforeA(*W.slots[size_t(a)].e), beforeB(*W.slots[size_t(b)].e);
     bool threw = false; int code = -1; std::string ename;
     try {
-        bop->compute(*W.slots[size_t(a)].e, *W.slots[size_t(b)].e, *e);
+        bop->compute(*pa, *pb, *e);
     } catch (MEDDLY::error& er) {
         threw = true; code = int(er.getCode()); ename = er.getName();
     }
